@@ -394,6 +394,70 @@ Proof. exact: kf_wrapped_mahalanobis. Qed.
 
 End C08_mathcomp.
 
+(* ------------------------------------------------------------------ Part 3b
+   The contract of the square-root factor is no longer a premise: C08_Model.ldlt_sqrt, the Gallina
+   transcription of sampleFromProposal's pivoted LDL^T square root (Eigen's pivoting rule, lower
+   triangle only, unscaled column on a zero pivot), is PROVED to return a factor A with A A^T = P for
+   every symmetric positive definite P, over any real field with a square-root function such that
+   0 <= x -> sqrt x * sqrt x = x (Num.sqrt in a real closed field: Example below).  The pivot order
+   is the executed one (proved to be a permutation whatever the comparisons decide). *)
+Require Import BFL.ListOpsCorrect BFL.C08_LDLTDef BFL.C08_LDLT.
+
+Section C08_ldlt.
+Variable F : realFieldType.
+Variable tr : Transc F.
+Hypothesis sqrt_ok : forall x : F, 0 <= x -> t_sqrt tr x * t_sqrt tr x = x.
+Variable n : nat.
+
+(* ... at the EXECUTED list instance (c08_ldlt is the extracted entry point the driver runs, with floats for F):
+   for a list matrix lP whose interpretation toM lP is symmetric positive definite (a well-formed lP
+   in particular: wf is not even needed, out-of-range reads are the default 0 on both sides), the
+   result is a well-formed n x n list matrix A with A *m A^T = P *)
+Theorem C08_ldlt_sqrt_contract (sq : nat -> lmx (FOps tr) -> lmx (FOps tr)) (lP : lmx (FOps tr)) :
+  spd (toM n n lP) ->
+  wf n n (c08_ldlt (FOps tr) sq n lP) /\
+  toM n n (c08_ldlt (FOps tr) sq n lP) *m (toM n n (c08_ldlt (FOps tr) sq n lP))^T = toM n n lP.
+Proof. exact: ldlt_sqrt_list_contract. Qed.
+
+(* ... at the MathComp instance, the one the Mahalanobis theorems above are stated at *)
+Theorem C08_ldlt_sqrt_contract_mx (sq : forall n, 'M[F]_n -> 'M[F]_n) (eg : forall n, 'M[F]_n -> 'M[F]_(n,1)) (P : 'M[F]_n) :
+  spd P ->
+  (ldlt_sqrt (O:=MxMat tr sq eg) P : 'M[F]_n) *m (ldlt_sqrt (O:=MxMat tr sq eg) P : 'M[F]_n)^T = P.
+Proof. exact: ldlt_sqrt_mx_correct. Qed.
+
+(* hence the Mahalanobis identity of the drawn position with NO premise on the factor *)
+Theorem C08_mahalanobis_proved (sq : forall n, 'M[F]_n -> 'M[F]_n) (eg : forall n, 'M[F]_n -> 'M[F]_(n,1))
+  (m z : M (MxMat tr sq eg) n 1) (P : M (MxMat tr sq eg) n n) :
+  spd (P : 'M[F]_n) ->
+  quadform (O:=MxMat tr sq eg) (msub (sample_from_proposal m P z) m) (minv P) = quadform (O:=MxMat tr sq eg) z (mid n)
+  /\ quadform (O:=MxMat tr sq eg) z (mid n) = \sum_i (z : 'cV[F]_n) i 0 ^+ 2.
+Proof. exact: mahalanobis_unconditional. Qed.
+
+(* ... and for every particle returned by the correction with the Kalman step as wrapped step: SPD R and SPD
+   predicted covariances are the only premises left *)
+Theorem C08_kf_mahalanobis_proved (sq : forall n, 'M[F]_n -> 'M[F]_n) (eg : forall n, 'M[F]_n -> 'M[F]_(n,1))
+  (m : nat) (H : M (MxMat tr sq eg) m n) (R : M (MxMat tr sq eg) m m) (y : M (MxMat tr sq eg) m 1)
+  (spdR : spd (R : 'M[F]_m)) lik trans (zs : list (M (MxMat tr sq eg) n 1)) (pred old : pset (MxMat tr sq eg) n) (i : nat) d :
+  fst (lik (gpf_drawn (kf_corr_gstep true H R y) zs pred old)) = true ->
+  length old = length pred ->
+  List.Forall (fun p : particle (MxMat tr sq eg) n => spd (pcov p : 'M[F]_n)) pred ->
+  (i < length pred)%coq_nat ->
+  let p := List.nth i (cr_particles (gpf_correct (kf_corr_gstep true H R y) lik trans zs pred old)) d in
+  spd (pcov p : 'M[F]_n) /\
+  quadform (O:=MxMat tr sq eg) (msub (pstate p) (pmean p)) (minv (pcov p)) =
+  quadform (O:=MxMat tr sq eg) (List.nth i zs (mzero n 1)) (mid n).
+Proof. exact: kf_wrapped_mahalanobis_unconditional. Qed.
+
+End C08_ldlt.
+
+(* non-vacuity of the premises of the four theorems above, together: over any real closed field, sqrt := Num.sqrt
+   meets its contract, and the list matrix [[1,1],[1,3]] (the larger diagonal entry comes second: the pivot swap is
+   taken) is well formed with a symmetric positive definite interpretation *)
+Example C08_ldlt_premises_rcf (K : rcfType) :
+  [/\ forall x : K, 0 <= x -> t_sqrt (ex_tr K) x * t_sqrt (ex_tr K) x = x,
+      wf 2 2 (ex_P K) & spd (toM 2 2 (ex_P K))].
+Proof. by split; [exact: ex_sqrt_ok | exact: ex_wf | exact: ex_spd]. Qed.
+
 (* non-vacuity of the MathComp premises: P = I with the factor L = I *)
 Example C08_premises_satisfiable (F : realFieldType) n :
   spd (1%:M : 'M[F]_n) /\ (1%:M : 'M[F]_n) *m (1%:M : 'M[F]_n)^T = 1%:M.
@@ -528,3 +592,7 @@ Print Assumptions C08_correct_mahalanobis.
 Print Assumptions C08_proposal_log_density.
 Print Assumptions C08_kf_conjugate_beliefs.
 Print Assumptions C08_kf_mahalanobis.
+Print Assumptions C08_ldlt_sqrt_contract.
+Print Assumptions C08_ldlt_sqrt_contract_mx.
+Print Assumptions C08_mahalanobis_proved.
+Print Assumptions C08_kf_mahalanobis_proved.
